@@ -24,6 +24,7 @@ def run(ctx, prog, facts, tier):
     from . import rules_c01
     rules_c01.check_support_argument(ctx, prog)
     rules_c02.check_take_action_composition(ctx, prog, I, mvs if tier != 'quick' else mvs[::3])
+    rules_c02.check_step_semantics(ctx, prog, rules_c02.step_semantics_moves(tier == 'quick'))
     ctx.floor('C02 move modes', ctx.analysed.get('move_modes', 0), len(mvs))
     ctx.exhaustive = tier != 'quick'
     ctx.assumptions += [
